@@ -2,6 +2,7 @@ package main
 
 import (
 	"fmt"
+	"os"
 	"sort"
 	"strings"
 	"sync"
@@ -170,6 +171,9 @@ func churnUniverse(thorough bool) (u []uint64, firsts []uint64, depth, dev int) 
 }
 
 func churn(c *report.Check, prop string) {
+	if debugScn(concLookup(prop, prop != "C02")) {
+		os.Exit(0)
+	}
 	u, firsts, depth, dev := churnUniverse(c.Thorough())
 	kv := prop != "C02"
 	if kv && c.Thorough() {
@@ -232,7 +236,8 @@ func churn(c *report.Check, prop string) {
 	if c.Thorough() {
 		ns = 32 // many small shards balance the long tail of the deepest sub-trees
 	}
-	plans := []e2.Plan{{Scns: scns, Bound: cb, NShards: ns}}
+	plans := []e2.Plan{{Scns: scns, Bound: cb, NShards: ns}, {Scns: concMaintScenarios(), Bound: cb, NShards: ns}}
+	scns = append(append([]string{}, scns...), concMaintScenarios()...)
 	if prop == "C02" {
 		// two stabilize rounds on one node (periodic task vs the advisory of a join/leave)
 		// with stabilize itself interleaved statement by statement
